@@ -238,4 +238,65 @@ def generate(bdir):
     sa = re.search(r"void\s+assign_svalue\s*\(.*?\n\}", sv, flags=re.S)
     if not sa or not re.search(r"free_svalue \(dest, [^)]*\); assign_svalue_no_free \(dest, v\);", " ".join(sa.group(0).split())):
         raise TieBroken("fn:assign_svalue", "assign_svalue is no longer `free_svalue(dest); assign_svalue_no_free(dest, v);` in this order")
+    _programs(out, info)
     return "\n".join(out) + "\n", info
+
+
+def _fn(path, name, site):
+    src = open(os.path.join(E.REPO, path)).read()
+    m = re.search(r"\n[\w \*]*\b%s\s*\([^;{]*\)\s*\{(.*?)\n\}" % re.escape(name), src, flags=re.S)
+    if not m:
+        raise TieBroken(site, "%s not found in %s" % (name, path))
+    return " ".join(re.sub(r"/\*.*?\*/", " ", m.group(1), flags=re.S).split())
+
+
+_CMP = {"==": "==", "!=": "!=", "<": "<", "<=": "≤", ">": ">", ">=": "≥"}
+
+
+def _cmp_lean(var, op, num):
+    if op in ("==", "!="):
+        return "(%s %s %s)" % (var, _CMP[op], num)
+    return "(decide (%s %s %s))" % (var, _CMP[op], num)
+
+
+def _programs(out, info):
+    """program_t.ref: reference_prog / free_prog (lib/lpc/program.c) and the places that hold a program reference"""
+    out.append("\n/-! ### program_t.ref: reference_prog / free_prog of lib/lpc/program.c, regenerated from the function text -/")
+    rp = _fn("lib/lpc/program.c", "reference_prog", "fn:reference_prog")
+    stm = [x.strip() for x in rp.split(";") if x.strip() and not x.strip().startswith("(void)")]
+    if stm != ["progp->ref++"]:
+        raise TieBroken("fn:reference_prog", "reference_prog is no longer the unconditional `progp->ref++;`: " + rp)
+    info["progInc"] = {"c": "progp->ref++;"}
+    out.append("/-- reference_prog.  C: `progp->ref++;` (the only statement; checked textually) -/\n"
+               "def progInc (r : Nat) : Nat := (r + 1) % 2 ^ progRefBits")
+    fp = _fn("lib/lpc/program.c", "free_prog", "fn:free_prog")
+    m = re.match(r"progp->ref-- ?; if \(progp->ref (==|!=|<=|>=|<|>) (\d+)\) return ?; if \(progp->func_ref (==|!=|<=|>=|<|>) (\d+)\) return ?; "
+                 r"if \(free_sub_strings\) deallocate_program \(progp\) ?;", fp)
+    if not m:
+        raise TieBroken("fn:free_prog", "free_prog is no longer `ref--; if (ref <op> n) return; if (func_ref <op> n) return; "
+                        "if (free_sub_strings) deallocate_program (progp); ...`: " + fp[:200])
+    keep = _cmp_lean("r'", m.group(1), m.group(2))
+    fkeep = _cmp_lean("f", m.group(3), m.group(4))
+    info["progDec"] = {"c": "progp->ref--; if (progp->ref %s %s) return; if (progp->func_ref %s %s) return;" % m.groups()}
+    out.append("/-- free_prog: new counter and \"deallocate\" (f = func_ref).  C: `%s` -/\n"
+               "def progDec (r f : Nat) : Nat × Bool :=\n  let r' := (r + 2 ^ progRefBits - 1) %% 2 ^ progRefBits\n  (r', !%s && !%s)"
+               % (info["progDec"]["c"], keep, fkeep))
+    # who holds a program reference: clone_object, dealloc_object, the inherit table (epilog / load_binary / deallocate_program)
+    checks = [
+        ("src/simulate.c", "clone_object", r"new_ob = get_empty_object \(ob->prog->num_variables_total\);.*new_ob->prog = ob->prog; reference_prog \(ob->prog, [^)]*\);",
+         "clone_object no longer does `new_ob = get_empty_object(..); ... new_ob->prog = ob->prog; reference_prog (ob->prog, ..);`"),
+        ("lib/lpc/object.c", "dealloc_object", r"if \(ob->prog\) \{ [^{}]*free_prog \(ob->prog, 1\); ob->prog = 0; \}",
+         "dealloc_object no longer releases the program with `free_prog (ob->prog, 1); ob->prog = 0;`"),
+        ("lib/lpc/program.c", "deallocate_program", r"for \(i = 0; i < \(int\) progp->num_inherited; i\+\+\) free_prog \(progp->inherit\[i\]\.prog, 1\);",
+         "deallocate_program no longer releases every inherited program once"),
+        ("lib/lpc/compiler.c", "epilog", r"reference_prog \(prog, \"epilog\"\); for \(i = 0; \(unsigned\) i < prog->num_inherited; i\+\+\) \{ reference_prog \(prog->inherit\[i\]\.prog, \"inheritance\"\); \}",
+         "epilog no longer references the new program and every inherited program once"),
+    ]
+    held = []
+    for path, fn, pat, msg in checks:
+        body = _fn(path, fn, "fn:" + fn)
+        if not re.search(pat, body):
+            raise TieBroken("fn:" + fn, msg)
+        held.append(fn)
+    info["progHolders"] = {"c": ", ".join(held)}
+    out.append("/-- holders of a program reference checked textually: %s -/\ndef progHolderSites : Nat := %d" % (", ".join(held), len(held)))
